@@ -44,12 +44,12 @@ PROPS = {
         "extra_modules": ["Cdecao.Props.C05E2E"],
         "theorems": ["Props.C05_regs", "Props.C05_courses", "Props.C05_no_cancelled_assignment", "Props.C05_consistent", "Props.C05_consistent_anyKeys",
                      "Props.C05_end_to_end", "Props.C05_end_to_end_anyKeys", "Props.C05_total_end_to_end", "Props.C05_total_from_start", "Props.cde_finished_done"],
-        "streams": ["e2e-cde", "node", "node-rooms"],
+        "streams": ["e2e-cde", "cdedb-read", "node", "node-rooms"],
     },
     "C06": {
         "module": "Cdecao.Props.C06",
         "theorems": ["Props.C06", "Props.C06_node", "Props.C06_exec"],
-        "streams": ["node-rooms", "solve-rooms", "e2e-cde"],
+        "streams": ["node-rooms", "solve-rooms", "e2e-cde", "cli-simple"],
     },
     "C07": {
         "module": "Cdecao.Props.C07",
@@ -162,7 +162,7 @@ LEVELS = {
     "C11": {"text": "Props.C11_end_to_end (reader ∘ solver ∘ writer: the clauses below hold for the file written from the incumbent of every reachable configuration of the search on every accepted export, all room lists, thread counts and schedules). Props.C11_consistent (assembled): ignored pre-assigned registrations are never named in the file; a course with ignored people is fixed, treated as taking place and written active; original minimum met and original maximum respected counting both groups (ignoredCount defined on the EXPORT); with --ignore-cancelled no cancelled course of the track appears in the file at all. Arithmetic and writer theorems about adapt_course_for_invisible_participants (places reserved: max counting pre-assigned, min counting both groups, course fixed, fixed course written active) + exact correspondence of the reader (incl. invisible counts, hidden names, external quality data) on generated exports with arbitrary existing assignments, all four option combinations, and the end-to-end consistency oracle with both-groups counts through the real binary.",
             "note": "Model CD.read/CD.adapt; the room offset change is applied natively (f32) by the driver. Room fitting with both groups rests on the offset correspondence (f32) and C06."},
     "C12": {"text": "Theorems Props.C12_read (assembled characterisation of CD.read: participants = the registrations of the selected part with status participant, not ignored, having a valid choice or instructing a kept course, in key order; courses = offered (and not ignored) ones, stably sorted by the padded number; instructor indices point at the instructing registration), C12_choices (penalty = position in the ORIGINAL list, skipped courses leave gaps), C12_courses, refusals (kind, version, no track, two tracks unselected, unknown track), defaults from the re-extracted constants; exact correspondence of CD.read with io::cdedb::read (courses, participants, choices/penalties, sizes, f32 factor/offset bits, ambience data, Ok/Err) on generated exports incl. single-field corruptions; an independent declarative re-statement (Python) as oracle.",
-            "note": "Model starts at the serde_json value; timestamp syntax by a simplified recogniser exact on the generator's domain; canonical decimal keys only."},
+            "note": "Model starts at the serde_json value; timestamp syntax by a simplified recogniser exact on the generator's domain; object keys are read as `u64::from_str` does (optional plus sign, leading zeros; generated)."},
     "C13": {"text": "Theorem Props.C13_read (non-interference of the reader): two export values that agree on kind/version/timestamp/event/id and whose course and registration records agree on the views the reader consults (status of the selected part, the two names, course_id/course_instructor/choices of the selected track, segments[track], nr, shortname, sizes, fields) — and, without --ignore-assigned, differ arbitrarily in course_id among known ids, without --ignore-cancelled in the true/false value of the selected track's segment — give the SAME reader result (problem, ambience data or refusal). Everything after the reader is a function of the problem (one worker). Pairs of exports (1-10 irrelevant edits of 9 kinds) go through the in-process reader and, with one worker, through the real binary (files compared after stripping timestamps).",
             "note": "Model CD.read; the relation Agree is phrased by equality of views, the nested set-a-member corollaries are covered by congruence lemmas and a worked example. Determinism of the engine with one worker given the same problem is by the engine model being a function of the pop policy (BinaryHeap order is deterministic for equal inputs; trusted)."},
     "C14": {"text": "Theorems Props.C14_entries / C14_entries_sorted (the listing of a course = exactly the participants assigned to it, in order, flagged iff instructor) and C14_array (one entry per participant, null or valid index, all T and schedules); the real binary's --print output is compared byte for byte with the Lean rendering LM.render, and the output file's array/keys are checked, incl. hidden names, non-ASCII names and a stale longer output file.",
@@ -172,7 +172,7 @@ LEVELS = {
     "C16": {"text": "Theorems Props.C16 / C16_faults about the output stage's decision logic; the fault matrix {ok, ENOENT, EISDIR, ENAMETOOLONG, ENOTDIR, /dev/full, RLIMIT_FSIZE partial write, stale longer file} x {simple, cde} x {--print} is run exhaustively on the real binary and compared with the model (exit status, listing still printed, file complete iff exit 0).",
             "note": "Runtime behaviour (which errno, short writes) cannot be exhibited by the model: proof of the decision logic + fault enumeration (partial by nature). Running as root, a read-only directory is not a fault."},
     "C18": {"text": "Theorems Props.C18_sound / C18_nonempty / C18_dedup for the double loop RS.possible under ANY sorting permutation of equally sized courses; exact correspondence (strings) of get_course_room_size_list / get_course_room_kind_names with the Lean model given the rank order the real unstable sort produced, on room-feasible assignments with shuffled room lists, duplicate capacities, fewer/more rooms than courses, quantity-0 kinds; the executable specification (usable room = large enough + remaining courses still fit) is evaluated on every listing, also on the real binary's --print output.",
-            "note": "Plumbing (re-indexing by course, kind names) is in the executable model RM.* and tied by correspondence; its Lean proof is in progress."},
+            "note": "io/rooms.rs is modelled by RS.possible / RM.possibleByCourse / RM.kindNames / RM.readKinds (exact strings under the rank order the real unstable sort produced). 'A course that takes place' is read as 'a course with positive effective size' in the non-emptiness clause (DESIGN §7 C18: with fewer rooms than courses the unchanged code lists nothing for a zero-size course, rightly)."},
     "C19": {"text": "Theorems Props.C19_no_hang / C19_bounded_work: with panicking node solvers anywhere in the tree, all T >= 1 and schedules, some non-wake step is enabled until every worker is done or dead. Props.C19_failure_reported: once a worker is dead it stays dead, the join loop of bab::solve (modelled by `outcome`) can never report success, the system is not stuck before everybody finished, and at AllFinished the join loop reports the failure. Props.C19_terminates / C19_terminates_dead / C19_terminates_dying / C19_terminates_verdict: with failing subproblems anywhere, every wake-free continuation extends within W root + 3T + 3(T²+s) steps to a configuration in which every worker has stopped, and if some worker is dying or dead the join loop there panics (outcome = some true): the search fails, it does not hang; C19_terminates_no_panic: without a panicking subproblem no worker is ever lost. Real runs with one failing node at random positions under seeded schedules: no deadlock, panic propagated, trace replays through the model.",
             "note": _ENG + " Termination is proved for every schedule with finitely many spurious wake-ups (an infinite run needs infinitely many of them); that the OS eventually schedules an enabled thread (weak fairness) is trusted."},
     "C20": {"text": "Theorems Props.C20_*: binom = choose; for 1 <= k <= n exactly choose n k selections, the i-th strictly increasing, below n, of rank i; stops after the last; empty for k = 0 or k > n; size hint exact. All (n,k) with n <= 11 (thorough 18) compared exhaustively with the real iterator.",
